@@ -92,7 +92,7 @@ def run(ctx, br):
     try:
         stress = json.loads(out.strip().split("\n")[-1])
     except ValueError:
-        ctx.violation("C17: concurrent stress run crashed", {"stderr": err[-1500:], "goroutines": g, "per_goroutine": n})
+        ctx.violation("C17: concurrent stress run crashed", {"stderr_head": err[:800], "stderr_tail": err[-800:], "goroutines": g, "per_goroutine": n})
     if stress and (stress.get("duplicates", 0) != 0 or stress.get("total") != g * n):
         ctx.violation("C17: duplicate op ids under concurrent creation/cloning/receiving",
                       {"stress": stress, "goroutines": g, "per_goroutine": n})
